@@ -8,7 +8,7 @@
 (*   act    any other API call; carries the transceiver list                  *)
 EXTENDS SdpOps, TraceKit
 
-VARIABLES l, viol, cnt, prev, used, trMid, appNeg
+VARIABLES pos, viol, cnt, prev, used, trMid, appNeg
 
 Who == {"A", "B"}
 Unified(e) == e.cfg # "planb"
@@ -19,6 +19,7 @@ AllMedia(d, Pred(_)) == \A i \in 1..Len(d.sections) :
 \* pairs (answer section, offer section) at the same index with the same mid, both accepted media
 Pairs(a, o) == {i \in 1..Len(a.sections) :
                   /\ i <= Len(o.sections) /\ a.sections[i].mid = o.sections[i].mid
+                  /\ a.sections[i].kind = o.sections[i].kind
                   /\ Media(a.sections[i]) /\ Accepted(a.sections[i]) /\ Accepted(o.sections[i])}
 
 Preds(e) ==
@@ -82,19 +83,19 @@ Preds(e) ==
        o.sections[i].cls \o "/" \o d.sections[i].age) : i \in (IF ans THEN Pairs(d, o) ELSE {}) }
 
 
-Init == /\ l = 1 /\ viol = {} /\ cnt = EmptyCount
+Init == /\ pos = 1 /\ viol = {} /\ cnt = EmptyCount
         /\ prev = [w \in Who |-> <<>>] /\ used = [w \in Who |-> {}] /\ trMid = {}
         /\ appNeg = [w \in Who |-> FALSE]
 
 Step ==
-  /\ l <= Len(Trace)
-  /\ LET e == Trace[l] IN
+  /\ pos <= Len(Trace)
+  /\ LET e == Trace[pos] IN
        IF e.ev = "reset"
        THEN /\ prev' = [w \in Who |-> <<>>] /\ used' = [w \in Who |-> {}] /\ trMid' = {}
             /\ appNeg' = [w \in Who |-> FALSE]
             /\ UNCHANGED <<viol, cnt>>
        ELSE LET ps == Preds(e) IN
-            /\ viol' = Merge(viol, Failures(ps, e, l))
+            /\ viol' = Merge(viol, Failures(ps, e, pos))
             /\ cnt'  = Count(cnt, ps)
             /\ IF e.ev = "apply" /\ e.ok
                THEN /\ prev' = [prev EXCEPT ![e.who] = e.mids]
@@ -103,9 +104,9 @@ Step ==
                ELSE UNCHANGED <<prev, used, appNeg>>
             /\ trMid' = trMid \cup {<<e.who, e.trs[k].id, e.trs[k].mid>> :
                                       k \in {j \in 1..Len(e.trs) : e.trs[j].mid # ""}}
-  /\ l' = l + 1
+  /\ pos' = pos + 1
 
-Done == l = Len(Trace) + 1 /\ UNCHANGED <<l, viol, cnt, prev, used, trMid, appNeg>>
+Done == pos = Len(Trace) + 1 /\ UNCHANGED <<pos, viol, cnt, prev, used, trMid, appNeg>>
 Next == Step \/ Done
-Rep  == Report(l, viol, cnt)
+Rep  == Report(pos, viol, cnt)
 =============================================================================
